@@ -1,5 +1,9 @@
 """C05 — floating-point and complex stores round-trip with C conversion semantics.
 
+Regeneration: tools/props/c05_regen.py extracts the raw-data macros, their instantiations, check_bytes_for_float_
+compatible and the float/complex branches of convert_from_object and do_cast into coq/C05/Gen.v (fail closed);
+coq/C05/Interp.v executes them and GenProofs.v proves them equal to the hand models (C05_gen_*_refines).
+
 Proof side: coq/C05 (Flocq): the model's `narrow` (binary64 -> binary32) is round-to-nearest-even of
 the real value with overflow to infinity, `widen` is exact, narrow (widen x) = x, classes preserved,
 complex componentwise, long double copy keeps the 10 value bytes.
@@ -22,8 +26,16 @@ import subprocess
 
 from lib import vlib
 from lib.vlib import cz, clist
+from props import c05_regen
 
 ID = "C05"
+
+
+def regen(ctx):
+    """coq/C05/Gen.v from /repo/src/c/_cffi_backend.c (fail closed: a shape the translator does not know is a
+    broken obligation)"""
+    c05_regen.regen(ctx, vlib)
+
 
 TARGETS = ["f", "d", "fc", "dc"]
 COQ_T = {"f": "TFloat", "d": "TDouble", "fc": "TFloatComplex", "dc": "TDoubleComplex"}
@@ -251,6 +263,54 @@ def generate(ctx):
         # first call into a fresh API module is one that passes a complex by value
         for t in ("dc", "fc"):
             cases.append(dict(kind="api_cold", t=t, path="api_callarg", re=rng.choice(pool), im=random_double(rng)))
+    # cdata sources (store: cdata_float / the long double special case; cast: convert_to_object prologue) and the
+    # long double target, compared with C05.XModel.xobserve
+    def non_nan32():
+        while True:
+            f = rng.choice([0, 1 << 31, 1, 0x7f7fffff, 0x7f800000, 0xff800000, 0x00800000, 0x3f800000,
+                            rng.getrandbits(32), rng.getrandbits(32)])
+            if not is_nan32(f):
+                return f
+
+    def non_nan64():
+        while True:
+            b = rng.choice(pool) if rng.random() < 0.5 else random_double(rng)
+            if not is_nan64(b):
+                return b
+
+    def xsource(t):
+        r = rng.random()
+        if r < 0.18:
+            return dict(k="cd_float", bits=non_nan32())
+        if r < 0.36:
+            return dict(k="cd_double", bits=non_nan64())
+        if r < 0.52:
+            return dict(k="cd_ld", raw=random_xld(rng))
+        if r < 0.62:
+            ct, lo, hi = rng.choice([("long long", -2 ** 63, 2 ** 63 - 1), ("int", -2 ** 31, 2 ** 31 - 1),
+                                     ("unsigned char", 0, 255), ("unsigned long long", 0, 2 ** 64 - 1),
+                                     ("_Bool", 0, 1), ("short", -2 ** 15, 2 ** 15 - 1)])
+            n = rng.choice([lo, hi, 0, 1, min(hi, 2 ** 53 + 1), min(hi, 2 ** 24 + 1), rng.randrange(lo, hi + 1)])
+            return dict(k="cd_int", ctype=ct, n=str(n))
+        if r < 0.68:
+            return dict(k="cd_char", b=rng.choice([0, 65, 127, 128, 255, rng.randrange(256)]))
+        if r < 0.76:
+            ct, hi = rng.choice([("wchar_t", 0x10ffff), ("char32_t", 0x10ffff), ("char16_t", 0xffff)])
+            return dict(k="cd_wchar", ctype=ct, c=rng.choice([0, 65, 255, 256, 0xffff, hi, rng.randrange(hi + 1)]))
+        if r < 0.86:
+            if rng.random() < 0.5:
+                return dict(k="cd_complex", ck="fc", re=non_nan32(), im=non_nan32())
+            return dict(k="cd_complex", ck="dc", re=non_nan64(), im=non_nan64())
+        if r < 0.90:
+            return dict(k="cd_other")
+        if r < 0.97 or t == "ld":
+            return dict(k="float", bits=non_nan64())
+        return dict(k="int", n=str(random_int(rng)))
+
+    for i in range(ctx.n(450, 5000)):
+        t = rng.choice(["f", "d", "ld", "ld", "fc", "dc"])
+        path = rng.choice(["cast", "cast", "new", "item"])
+        cases.append(dict(kind="xfp", t=t, path=path, v=xsource(t)))
     # long double
     nld = ctx.n(250, 2500)
     for i in range(nld):
@@ -363,6 +423,44 @@ def coq_value(eff):
     if k == "str":
         return "(PyStr %s)" % clist([cz(c) for c in eff["cps"]])
     return "PyOther"
+
+
+XT_COQ = {"f": "(XF (TK F32))", "d": "(XF (TK F64))", "ld": "(XF TLD)", "fc": "(XC F32)", "dc": "(XC F64)"}
+
+
+def coq_xvalue(eff):
+    k = eff["k"]
+    if k == "cd_float":
+        return "(XCData (CDFloat F32 %s))" % cz(eff["bits"])
+    if k == "cd_double":
+        return "(XCData (CDFloat F64 %s))" % cz(eff["bits"])
+    if k == "cd_ld":
+        return "(XCData (CDLongDouble %s))" % clist([cz(b) for b in bytes.fromhex(eff["raw"]) + bytes(6)])
+    if k == "cd_int":
+        return "(XCData (CDInt %s))" % cz(int(eff["n"]))
+    if k == "cd_char":
+        return "(XCData (CDChar %s))" % cz(eff["b"])
+    if k == "cd_wchar":
+        return "(XCData (CDWChar %s))" % cz(eff["c"])
+    if k == "cd_complex":
+        return "(XCData (CDComplex %s %s %s))" % ("F32" if eff["ck"] == "fc" else "F64", cz(eff["re"]), cz(eff["im"]))
+    if k == "cd_other":
+        return "(XCData CDOther)"
+    return "(XPy %s)" % coq_value(eff)
+
+
+XPRELUDE = """
+Definition xobs_eqb (a b : result (list Z)) : bool :=
+  match a, b with
+  | Ok x, Ok y => list_eqb Z.eqb x y
+  | Err e, Err f => exc_eqb e f
+  | _, _ => false
+  end.
+"""
+
+
+def is_nan_x87(v):
+    return (v >> 64) & 0x7fff == 0x7fff and v & ((1 << 63) - 1) != 0
 
 
 PRELUDE = """
@@ -522,6 +620,48 @@ def evaluate(ctx, cases):
     for c, r in fp[:3]:
         ctx.sample(dict(c, result=r))
 
+    # ---- cdata sources / long double target: implementation vs C05.XModel.xobserve (the hand model the regenerated
+    #      statements are proved equal to)
+    xs = [(c, r) for c, r in zip(cases, res) if c["kind"] == "xfp"]
+    coqcases, owner = [], []
+    for c, r in xs:
+        ctx.count()
+        eff = r.get("eff") or dict(c["v"])
+        case = dict(c, v=eff)
+        ctx.hist("x_source", eff["k"])
+        ctx.hist("x_target", c["t"])
+        if r.get("clobber"):
+            ctx.violation(case, "store into %s via %s changed bytes outside the object" % (c["t"], c["path"]))
+            continue
+        if "err" in r:
+            if r["err"].startswith("other:"):
+                ctx.mismatch(case, "implementation raised %s; the model knows TypeError/OverflowError only" % r["err"],
+                             "C05.XModel.xobserve vs _cffi_backend float paths (cdata sources)")
+                continue
+            lit = "(Err %s)" % r["err"]
+        else:
+            st = r["stored"]
+            if c["t"] == "ld":
+                if is_nan_x87(st[0]) and eff["k"] != "cd_ld":
+                    continue                      # NaN payload of a conversion: class only, not compared here
+                lit = "(Ok %s)" % clist([cz(st[0])])
+            else:
+                lit = "(Ok %s)" % clist([cz(canon(c["t"], b)) for b in st])
+        ctx.nontrivial(("xfp", c["t"], c["path"], eff))
+        coqcases.append(("(%s, %s, %s)" % (XT_COQ[c["t"]], "Cast" if c["path"] == "cast" else "Store", coq_xvalue(eff)), lit))
+        owner.append(case)
+    if coqcases:
+        bad, outs, err = vlib.coq_mismatches(
+            ["C05.Model", "C05.XModel"], "fun c => xobserve (fst (fst c)) (snd (fst c)) (snd c)", "xobs_eqb", coqcases,
+            prelude=XPRELUDE, shard=1000)
+        if err:
+            ctx.obligation_broken("C05 extended model evaluation", err)
+        for i in bad:
+            ctx.mismatch(owner[i], "model xobserve = %s, implementation gave %s" % (outs.get(i), coqcases[i][1]),
+                         "C05.XModel.xobserve vs _cffi_backend float paths (cdata sources, long double target)")
+    for c, r in xs[:2]:
+        ctx.sample(dict(c, result=r))
+
     # ---- long double copies
     ld = [(c, r) for c, r in zip(cases, res) if c["kind"] == "ld"]
     coqcases, owner = [], []
@@ -600,13 +740,19 @@ def run(ctx):
         "FLT_MIN neighbourhood} plus random patterns) stored into float/double/float _Complex/double _Complex through "
         "new/item/list/field/structinit/callarg/callback/cast (API-mode call argument in thorough); stored bytes and "
         "read-back value compared bit-exactly (NaN by class) with the Coq model and with gcc's conversions. "
+        "xfp: primitive cdata sources (float/double/long double/integer/char/wide char/complex cdata, a pointer) and "
+        "Python floats/ints stored into or cast to float/double/long double/float _Complex/double _Complex via "
+        "cast/new/item, stored value bytes compared with C05.XModel.xobserve (the model the regenerated statements "
+        "are proved equal to). "
         "ld: random valid x87 encodings (normal, denormal, zero, inf, quiet and signalling NaN) read and sent through "
         "new/item/list/field/cast/reread/callarg/callret/callback, 10 value bytes compared; double<->long double vs gcc. "
         "Non-trivial = float-target value whose narrowing is not the trivial exact/zero class, a double-target special "
         "value, an expected-exception case, or a non-zero long double; distinct by (target, path, value).")
     ctx.assumptions += [
-        "hand-written model C05/Model.v of the float paths of _cffi_backend.c; (float)/(double) modelled by Flocq's "
-        "IEEE-754 binary32/binary64 (round to nearest even); tied to the code by this run's differential test",
+        "hand-written models C05/Model.v and C05/XModel.v of the float paths of _cffi_backend.c; (float)/(double)/"
+        "(long double) modelled by Flocq's IEEE-754 binary32/binary64/precision-64 formats (round to nearest even); "
+        "tied to the code by C05/Gen.v (statement lists regenerated by tools/props/c05_regen.py — trusted translator — "
+        "and proved equal to the models through C05/Interp.v) and by this run's differential test",
         "gcc's (float)/(double)/(long double) conversions on this machine (SSE2 / x87) are the oracle for "
         "'the value C obtains'; struct.pack/unpack('<d') are bit-exact views of Python floats",
         "partial: the x87 load/store of long double and the compiler's conversion instructions are runtime behaviour; "
@@ -617,20 +763,38 @@ def run(ctx):
 
 MANIFEST = dict(
     technique="Coq proof over Flocq's IEEE-754 formalisation (narrowing = round-to-nearest-even for every finite "
-              "binary64, exact widening, narrow∘widen = id, classes, complex componentwise, long double byte copy) + "
-              "bit-exact differential correspondence of the executable model with the real backend on all store "
-              "paths, with gcc's conversions as the predicate oracle",
-    text="Proof: for every finite binary64 x the model's (float) conversion equals Flocq's round-to-nearest-even of "
-         "the real value into binary32, or the infinity of x's sign when that does not fit, which happens exactly "
-         "from 0x47effffff0000000 upwards (an iff: 0x47efffffefffffff is proved to be its binary64 predecessor, so no "
-         "double lies between); zeros/infinities keep sign, NaN stays NaN; float->double is exact and "
-         "narrow(widen x) = x for every non-NaN binary32 (also on bit patterns); complex parts are stored at "
-         "offsets 0 and sizeof(type) exactly like a float store; long double read+write keeps the 10 value bytes. "
-         "The same Gallina definitions are evaluated by vm_compute on the inputs the real _cffi_backend is run on "
-         "(every store path) and compared bit for bit; gcc's conversions decide the predicate on the implementation.",
+              "binary64, exact widening to double and to x87 long double, narrow∘widen = id, classes, complex "
+              "componentwise, frame of a store at an offset) + the float paths of _cffi_backend.c regenerated as "
+              "statement lists (C05/Gen.v) and proved equal to the hand model by an interpreter (C05/Interp.v, "
+              "GenProofs.v) + bit-exact differential correspondence of the executable models with the real backend "
+              "on all store paths, with gcc's conversions as the predicate oracle",
+    text="Proof (universal, Flocq): C05_narrow_is_round_to_nearest_even, C05_overflow_threshold (iff; the threshold "
+         "0x47effffff0000000 and its proved binary64 predecessor), C05_classes_preserved, C05_read_is_exact_and_stable, "
+         "C05_representable_unchanged, C05_store_then_read, C05_complex_componentwise, C05_python_value_conversions, "
+         "C05_longdouble_copy_keeps_value_bytes; new: C05_double_to_longdouble_exact ((long double)d exact for every "
+         "finite binary64, classes kept), C05_store_frame (a float/complex store at offset off of a larger memory keeps "
+         "the length, changes nothing outside [off, off+size), leaves memory unchanged on failure, and the object then "
+         "holds exactly the converted bytes; complex parts at off and off+sizeof(type)). "
+         "Regenerated on every run (tools/props/c05_regen.py -> C05/Gen.v, fail closed): the statement lists of the "
+         "macros _write_raw_data/_write_raw_complex_data/_read_raw_data, the types read/write_raw_float_data, "
+         "..._longdouble_data, ..._complex_data instantiate them with and their source/return types, the blocks of "
+         "read_raw_complex_data, branch order and return codes of check_bytes_for_float_compatible, and the guarded "
+         "statement lists of the CT_PRIMITIVE_FLOAT / CT_PRIMITIVE_COMPLEX branches of convert_from_object and do_cast "
+         "(position and local type of the long-double block, conversion functions, error tests, cast before "
+         "write_raw_longdouble_data). C05_gen_raw_data_refines, C05_gen_at_refines and C05_gen_store_refines prove that "
+         "executing these statements equals the hand models (XModel.v for all targets incl. long double, all offsets, "
+         "Python and primitive-cdata sources; Model.v on a fresh object), so the Flocq theorems speak about the "
+         "regenerated code; an edit such as swapping real/imaginary, `double lvalue`, or another instantiation type "
+         "breaks these obligations. Correspondence-only: the meaning of the C conversion instructions (Flocq vs "
+         "SSE2/x87), PyFloat_AsDouble/PyComplex_AsCComplex/convert_to_object (hand-modelled in Model.v/XModel.v), the "
+         "API-mode converters, call arguments/callbacks; all compared bit for bit with the backend (and gcc) per run, "
+         "including cdata sources and the long double target (stream xfp vs C05.XModel.xobserve).",
     note="PARTIAL. Trusted: Coq kernel + stdlib real-number axioms (ClassicalDedekindReals.sig_forall_dec, "
          "sig_not_dec, functional_extensionality_dep, Classical_Prop.classic — through Flocq 4.1); Flocq's "
-         "definition of IEEE-754 as the meaning of 'the value C obtains'; the hand model (tied by differential "
-         "testing, not by translation); gcc 12 + SSE2/x87 conversions as oracle; long double is modelled as a "
-         "byte copy only (x87 semantics not formalised); NaN payloads not compared.",
+         "definition of IEEE-754 as the meaning of 'the value C obtains'; the translator c05_regen.py and the "
+         "statement semantics of C05/Interp.v (reference counting and the Py_FatalError fall-through are not "
+         "modelled); the hand models of the Python-level callees (tied by differential testing); gcc 12 + SSE2/x87 "
+         "conversions as oracle; x87 load/store modelled as a copy of the 10 value bytes, (long double)d and (double)ld "
+         "as Flocq roundings (only the former has a universal theorem; (double)ld is sampled against gcc); NaN payloads "
+         "not compared.",
     design_ref="DESIGN.md §4 C05")
